@@ -1,7 +1,10 @@
-(* Properties/C01.v -- placeholder statements are replaced as the proofs land (see below). *)
+(* Properties/C01.v -- documented layouts parse back to exactly their tracts.
+   Unbounded theorem: the marker walk of the Twp/Rge-Sec-desc layout (any number of groups and
+   sections); the four documented examples end to end.  What the finders report for a rendered
+   description is the regex seam (expected_tracts oracle). *)
 From Coq Require Import List NArith ZArith Bool.
 From Coq Require String.
-From PyTRS Require Import Engine.Regex Gen.Patterns PyRt.Str Gen.Tables Model.Trs Model.PlssPre Model.PlssParse Model.Config Model.PlssDesc.
+From PyTRS Require Import Engine.Regex Gen.Patterns PyRt.Str Gen.Tables Model.Trs Model.PlssPre Model.PlssParse Model.Config Model.PlssDesc Proofs.C01.Walk.
 Import ListNotations.
 Import String.StringSyntax.
 Local Open Scope string_scope.
@@ -20,3 +23,30 @@ Theorem C01_documented_examples :
   tracts_of (s "T154N-R97W" ++ [10%N] ++ s "NE/4 of Section 14") = Some (TR_DESC_S, [(s "154n97w14", s "NE/4")]).
 Proof. vm_compute. repeat split; reflexivity. Qed.
 Print Assumptions C01_documented_examples.
+
+(* Twp/Rge-Sec-desc, ANY number of Twp/Rge groups and ANY number of sections per group: if the markers of the
+   chunk are  [leading text], then groups  T S block S block ...,  then the end of the text,  then the walk stages exactly one component per section, in
+   reading order, each with its own section value, the Twp/Rge of ITS group and the cleaned text that follows
+   it up to the next marker -- and both working lists are used up *)
+Theorem C01_walk_trs_desc : forall txt md lead gs L tvals svals c c',
+  (forall p k, In (p, k) (trs_desc_marks lead gs L) -> md_get p md = Some k) ->
+  length tvals = length gs -> length svals = total_secs gs -> cp_wt_list c = tvals -> cp_ws_list c = svals ->
+  walk txt true md (map fst (trs_desc_marks lead gs L)) c = Ok c' ->
+  exists news, cp_tc c' = cp_tc c ++ news /\ Forall2 matches_triple news (grp_triples txt gs tvals svals L) /\
+               cp_wt_list c' = [] /\ cp_ws_list c' = [].
+Proof. exact trs_desc_walk_md. Qed.
+Print Assumptions C01_walk_trs_desc.
+
+(* non-vacuity: the markers the real finders produce for a two-group description have exactly that shape *)
+Definition ex_text : str := s "T154N-R97W Sec 14: NE/4, Sec 15: W/2" ++ [10%N] ++ s "T155N-R97W Sec 1: ALL".
+Example C01_walk_premises :
+  match twprge_finder ex_text (Some TRS_DESC) (s "n") (s "w"), sec_finder ex_text (Some TRS_DESC) (RC_bool false) with
+  | Ok tf, Ok sf =>
+      let md := populate_markers ex_text (sf_matches sf) (tf_matches tf) in
+      let gs := [mk_grp 0 10 [mk_secm 11 18; mk_secm 25 32]; mk_grp 37 47 [mk_secm 48 54]] in
+      sort_nat (map fst md) = map fst (trs_desc_marks false gs 58) /\
+      forallb (fun pk => match md_get (fst pk) md with Some k => mk_eqb k (snd pk) | None => false end) (trs_desc_marks false gs 58) = true /\
+      map tm_val (tf_matches tf) = [s "154n97w"; s "155n97w"] /\ map sm_val (sf_matches sf) = [[s "14"]; [s "15"]; [s "01"]]
+  | _, _ => False
+  end.
+Proof. vm_compute. repeat split; reflexivity. Qed.
